@@ -116,15 +116,18 @@ def run(chk):
     curve = VSym(("param", "curve"), cls=frozenset(["Curve"]))
     it.analyse("keys:SigningKey.generate", [SK, curve, VSym(("param", "entropy"))])
     cs = it.watch_results[q]
-    okg = bool(cs) and all(term_of(c[2][1]) == ("param", "entropy") and isinstance(c[2][0], VInt) for c in cs)
-    okg &= all(c[2][0].lin == Lin.sym(("call", ("attr", ("param", "curve"), "generator"), "order")) for c in cs)
+    okg = bool(cs) and all(len(c[2]) >= 2 and term_of(c[2][1]) == ("param", "entropy") and isinstance(c[2][0], VInt) for c in cs)
+    okg &= all(len(c[2]) >= 1 and c[2][0].lin == Lin.sym(("call", ("attr", ("param", "curve"), "generator"), "order")) for c in cs)
     chk.ob("R17.4", "SigningKey.generate -> randrange(curve.order, caller's entropy)", okg, loc="keys:SigningKey.generate", key="C17|R17.4|generate", detail="generate does not forward curve.order / the caller's entropy to randrange")
     sk = VSym(("param", "self"), cls=frozenset(["SigningKey"]))
     it = W.interp()
     it.watch_results[q] = []
     it.analyse("keys:SigningKey.sign", [sk, VBytes(("param", "data"))], {"entropy": VSym(("param", "entropy"))})
     cs = it.watch_results[q]
-    oks = bool(cs) and all(term_of(c[2][1]) == ("param", "entropy") and term_of(c[2][0]) == ("attr", ("attr", ("param", "self"), "privkey"), "order") for c in cs)
+    def _entropy_arg(c):
+        # second positional argument or the keyword; a call without it draws from os.urandom
+        return c[2][1] if len(c[2]) >= 2 else c[3].get("entropy")
+    oks = bool(cs) and all(_entropy_arg(c) is not None and term_of(_entropy_arg(c)) == ("param", "entropy") and len(c[2]) >= 1 and term_of(c[2][0]) == ("attr", ("attr", ("param", "self"), "privkey"), "order") for c in cs)
     chk.ob("R17.4", "sign -> sign_digest -> sign_number -> randrange(privkey.order, caller's entropy)", oks, loc="keys:SigningKey.sign", key="C17|R17.4|sign", detail="sign does not forward the caller's entropy unchanged down to randrange")
     # R17.5
     reach = W.lite.reach([q])
